@@ -2,10 +2,12 @@
    Proved here: for every column count, row list and capability setting the packets each handler plan of
    Model/Conn.v writes form a response of the protocol grammar Model/Resp.v; a response cut at ANY point
    and completed by one ERR is a response; nothing may follow a complete response.
-   The composition "the machine emits exactly plan packets + at most one ERR between two reads" is tied to
-   the code by the lock-step runs (every implementation response is run through the grammar inside Coq). *)
+   The composition over whole conversations (Proofs/C03Proofs.v): for EVERY lock-step conversation - any list of
+   commands, any application outcome, any schedule of row / loop / socket events and authentication exchanges - the
+   packets the machine hands to the socket between two reads of a command are a response of the grammar for that command
+   with consecutive sequence numbers, and the machine is back at its prompt only when that response is complete. *)
 From Coq Require Import List Arith NArith Lia Bool.
-From MM Require Import Lib.Bytes Model.Conn Model.Resp Proofs.RespProofs Proofs.C10Proofs Gen.FactsConn Gen.FactsPackets Model.Packets Proofs.PacketProofs.
+From MM Require Import Lib.Bytes Model.Conn Model.Resp Proofs.RespProofs Proofs.C10Proofs Gen.FactsConn Gen.FactsPackets Model.Packets Proofs.PacketProofs Proofs.C03Proofs.
 Import ListNotations.
 Open Scope N_scope.
 
@@ -99,3 +101,69 @@ Theorem c03_column_count_packet : forall c n rest, optional_metadata c = false -
 Proof. exact colcount_roundtrip. Qed.
 Theorem c03_column_definition_packet : forall cd rest, coldef_wf cd -> dec_coldef (enc_coldef cd None ++ rest) = Some (cd, rest).
 Proof. exact coldef_roundtrip. Qed.
+
+(* ---- the composition: every lock-step conversation ------------------------------------------------------------------
+   `lockstep B BATCH dep s rounds`: for each round (c, evs) - the command c sent to a server waiting at its prompt, followed
+   by the events evs - a client that parses what it is sent with the grammar of c (`observe`: rstep, plus the sequence-number
+   check, starting at 1 and skipping the number of its own reply to an authentication request) never rejects a packet, and
+   if the server is back at its prompt the response is complete (accepting), the state is quiescent (buffer empty, sequence
+   reset) and the rest of the conversation has the same property.
+   Events: the application's outcome (`out_ok`: a result set has at least one column - what ensure_result_set guarantees;
+   exceptions of either kind allowed), rows becoming available, loop turns, the socket pausing / resuming, the identity
+   provider's and the plugin's verdicts in a COM_CHANGE_USER exchange.  Not in scope here: kills (C09), a client that sends
+   the next command before the response (pipelining: checked by the lock-step runs), disconnects and malformed frames (C07,
+   C10).  The model's fuel: DESIGN.md section 11. *)
+Theorem c03_lockstep_conversation : forall B BATCH dep rounds s,
+  quiescent dep s -> at_prompt s ->
+  Forall (fun r : cmd * list ev => cmd_ok (fst r) /\ Forall allowed (snd r)) rounds ->
+  lockstep B BATCH dep s rounds.
+Proof. exact lockstep_ok. Qed.
+
+(* one round, in full: whatever state the machine is left in (suspended anywhere, finished, or out of fuel) the monitor has
+   not rejected; at the prompt it accepts *)
+Theorem c03_round : forall B BATCH dep c evs s,
+  cmd_ok c -> quiescent dep s -> at_prompt s -> Forall allowed evs ->
+  let r := Proofs.C10Proofs.exec B BATCH s (EvPayload c :: evs) in
+  m_rs (observe dep (rkind_of c) (snd r)) <> RBad /\
+  (at_prompt (fst r) -> accepting (rkind_of c) (m_rs (observe dep (rkind_of c) (snd r))) = true /\ quiescent dep (fst r)).
+Proof.
+  intros B BATCH dep c evs s Hc Q P Ha.
+  assert (F : Forall (fun r : cmd * list ev => cmd_ok (fst r) /\ Forall allowed (snd r)) [(c, evs)]) by (apply Forall_cons; [split; assumption|apply Forall_nil]).
+  pose proof (lockstep_ok B BATCH dep [(c, evs)] s Q P F) as L.
+  cbn [lockstep] in L. destruct L as [L1 L2]. split; [exact L1|]. intros P'. destruct (L2 P') as (A & Q' & _). now split.
+Qed.
+
+(* a connection that logged in waits at its prompt in a quiescent state: the conversations above start here *)
+Theorem c03_prompt_after_login : forall B BATCH dep hs,
+  let s := fst (Proofs.C10Proofs.exec B BATCH (fst (boot B BATCH hs)) [EvHandshake true dep; EvDecide ASuccess; EvApp OVoid]) in
+  quiescent dep s /\ at_prompt s.
+Proof. exact session_at_prompt. Qed.
+
+(* non-vacuity: a conversation over result sets (async source, failure in mid-stream, a paused socket), prepared statements,
+   a cursor, a COM_CHANGE_USER with a two-step exchange and the no-reply COM_STMT_CLOSE returns to the prompt after EVERY
+   round - so the "complete response" half of the theorem applies to each of them *)
+Definition c03_conv : list (cmd * list ev) :=
+  [(CQuery, [EvApp (OSet (mk_sizes 1 [20; 21] 5 7) [IRow 5; ISuspend; IRow 6]); EvRowReady]);
+   (CPing, []);
+   (CPrepare 1 (mk_sizes 12 [24] 5 0), []);
+   (CExecute 0 true, [EvApp (OSet (mk_sizes 1 [20] 5 7) [IRow 5; IRow 6; IRow 7])]);
+   (CFetch 0 2 5, []);
+   (CQuery, [EvPause; EvApp (OSet (mk_sizes 1 [20] 5 7) [IRow 5; IRaise (Some 1064)]); EvResume]);
+   (CChangeUser, [EvDecide ASwitch; EvAuthReply AMore; EvAuthReply ASuccess; EvApp OVoid]);
+   (CClose 0, []); (CFieldList, [EvApp (ORaise None)]); (CPing, [])].
+Fixpoint c03_prompts (B BATCH : N) (s : st) (rs : list (cmd * list ev)) : list bool :=
+  match rs with
+  | [] => []
+  | (c, evs) :: rest =>
+      let r := Proofs.C10Proofs.exec B BATCH s (EvPayload c :: evs) in
+      (match ctl_ (fst r) with Susp WRead [] FRead None => true | _ => false end) :: c03_prompts B BATCH (fst r) rest
+  end.
+Example c03_lockstep_nonvacuous :
+  Forall (fun r : cmd * list ev => cmd_ok (fst r) /\ Forall allowed (snd r)) c03_conv /\
+  c03_prompts conn_buffer_size BATCH
+    (fst (Proofs.C10Proofs.exec conn_buffer_size BATCH (fst (boot conn_buffer_size BATCH 78)) [EvHandshake true false; EvDecide ASuccess; EvApp OVoid]))
+    c03_conv = [true; true; true; true; true; true; true; true; true; true].
+Proof.
+  split; [|vm_compute; reflexivity].
+  unfold c03_conv. repeat (apply Forall_cons; [split; [cbn; auto|repeat (apply Forall_cons; [cbn; auto; discriminate|]); apply Forall_nil]|]). apply Forall_nil.
+Qed.
